@@ -35,7 +35,7 @@ Valid(sub, cls) == {E(<<"top">>, "1"), E(<<"g", "alpha">>, "1"), E(<<"dc", "xval
 \* string prefix of a sibling, a sibling with a suffix, a dotted foreign key
 Positions == {<< >>, <<"g">>, <<"g", "b">>, <<"dc">>, <<"dc2">>, <<"dc2", "inner">>, <<"model">>, <<"model", "init_args">>,
               <<"items", "#">>, <<"fit">>, <<"fit", "opt">>, <<"test">>, <<"top">>}
-Names(pos, cls) == {<<"zzq">>, <<"zzq+">>, <<"zzq", "deep">>}
+Names(pos, cls) == {<<"zzq">>, <<"zzq+">>, <<"zzq", "deep">>, <<"__note__">>, <<"_zz">>}    \* a foreign key may look private or like a meta key
   \cup (CASE pos = << >> -> {<<"lr_dec">>, <<"lr_decayx">>, <<"topx">>, <<"mod">>, <<"fi">>}
           [] pos = <<"g">> -> {<<"alph">>, <<"alphax">>, <<"bq">>}
           [] pos = <<"g", "b">> -> {<<"cva">>, <<"cvalx">>}
